@@ -350,6 +350,9 @@ class Monitor:
         family = [i for i in self.instantiable if issubclass(i.cls, cls) or issubclass(cls, i.cls)]
         shared = self.check_alias(a1, a2, 'two fresh constructions', info, label='two_fresh')
         ctx.case(('fresh', info.key))
+        if len(ctx.samples) < 2:
+            ctx.sample({'class': info.key, 'scenario': 'two fresh constructions, deep mutation of one, baseline of cls() re-checked',
+                        'shared_mutable_objects_found': bool(shared)})
         self.check_write_through(a1, [a2], 'two fresh constructions', info, rng, 'write_through.fresh', shared)
         self.recheck_baseline(f'deep mutation of a freshly constructed {info.name}', family)
         # ---- S2: parse with absent members ---------------------------------------------------------------------
